@@ -1,43 +1,44 @@
+import Desert.Lemmas.RoundTripFull
 import Desert.Lemmas.Misc
 /-!
 # C07 — encodings are self-delimiting
 
 The `∀ t` of the round-trip theorems *is* this property: whatever follows an encoding is left
-exactly as it was. Stated here for any environment of headerless declarations (built-in types,
-tuples, derived structs and enums without evolution steps); evolved records: see C03 (partial).
+exactly as it was. Stated here for any environment of well-formed declarations (`EnvWF`: built-in
+types, tuples, derived structs and enums, with or without evolution steps and their chunked layout).
 -/
 set_option linter.unusedVariables false
 
 namespace C07
 
 /-- decoding from a buffer that starts with an encoding consumes exactly that encoding -/
-theorem consumes_exactly (env : Env) (henv : EnvV0 env) (ty : Ty) (v : Val) (st : EncSt) (b : Bytes) (st' : EncSt)
+theorem consumes_exactly (env : Env) (henv : EnvWF env) (ty : Ty) (v : Val) (st : EncSt) (b : Bytes) (st' : EncSt)
     (fuel : Nat) (he : enc env ty v st = .ok (b, st')) (hu : v.utf8OK) (hst : StOK st) (hd : v.depth < fuel)
     (s : AbsSrc) (t : Bytes) (hw : s.WF) (hv : s.view = b ++ t) (hs : s.strs = st) :
     ∃ s', runAbs (dec env fuel ty) s = .ok (normalize env ty v, s') ∧ s'.view = t ∧
       s'.cur.window = s.cur.window ∧ s'.stack = s.stack := by
-  have := ((rt_all env henv v).1 ty st b st' fuel he hu hst hd s t hw hv hs).1
+  have := ((rt_wf env henv v).1 ty st b st' fuel he hu hst hd s t hw hv hs).1
   exact ⟨_, this, view_after_append hv _, rfl, rfl⟩
 
 /-- values written one after another are read back one after another -/
-theorem sequential (env : Env) (henv : EnvV0 env) (ty₁ ty₂ : Ty) (v₁ v₂ : Val) (b₁ b₂ : Bytes) (st₁ st₂ : EncSt)
+theorem sequential (env : Env) (henv : EnvWF env) (ty₁ ty₂ : Ty) (v₁ v₂ : Val) (b₁ b₂ : Bytes) (st₁ st₂ : EncSt)
     (fuel : Nat) (he₁ : enc env ty₁ v₁ [] = .ok (b₁, st₁)) (he₂ : enc env ty₂ v₂ st₁ = .ok (b₂, st₂))
     (hu₁ : v₁.utf8OK) (hu₂ : v₂.utf8OK) (hd₁ : v₁.depth < fuel) (hd₂ : v₂.depth < fuel) (t : Bytes) :
     ∃ s₁ s₂, runAbs (dec env fuel ty₁) (AbsSrc.new (b₁ ++ b₂ ++ t)) = .ok (normalize env ty₁ v₁, s₁) ∧
       runAbs (dec env fuel ty₂) s₁ = .ok (normalize env ty₂ v₂, s₂) ∧ s₂.view = t := by
   have hv : (AbsSrc.new (b₁ ++ b₂ ++ t)).view = b₁ ++ (b₂ ++ t) := by simp [view_new]
-  have h1 := (rt_all env henv v₁).1 ty₁ [] b₁ st₁ fuel he₁ hu₁ (by simp [StOK]) hd₁ _ (b₂ ++ t) (WF_new _) hv rfl
+  have h1 := (rt_wf env henv v₁).1 ty₁ [] b₁ st₁ fuel he₁ hu₁ (by simp [StOK]) hd₁ _ (b₂ ++ t) (WF_new _) hv rfl
   have hw1 := WF_after (WF_new _) hv st₁
   have hv1 := view_after_append hv st₁
-  have h2 := (rt_all env henv v₂).1 ty₂ st₁ b₂ st₂ fuel he₂ hu₂ h1.2 hd₂ _ t hw1 hv1 (by simp)
+  have h2 := (rt_wf env henv v₂).1 ty₂ st₁ b₂ st₂ fuel he₂ hu₂ h1.2 hd₂ _ t hw1 hv1 (by simp)
   exact ⟨_, _, h1.1, h2.1, view_after_append hv1 _⟩
 
 /-- the faithful context agrees: after `T::deserialize` the context's cursor stands right behind the encoding -/
-theorem consumes_exactly_faithful (env : Env) (henv : EnvV0 env) (ty : Ty) (v : Val) (b : Bytes) (st' : EncSt)
+theorem consumes_exactly_faithful (env : Env) (henv : EnvWF env) (ty : Ty) (v : Val) (b : Bytes) (st' : EncSt)
     (fuel : Nat) (he : enc env ty v [] = .ok (b, st')) (hu : v.utf8OK) (hd : v.depth < fuel) (t : Bytes) :
     ∃ c', runCtx (dec env fuel ty) (Ctx.new (b ++ t)) = .ok (normalize env ty v, c') ∧ c'.cur.pos = b.length ∧
       c'.stack = [] := by
-  have h := ((rt_all env henv v).1 ty [] b st' fuel he hu (by simp [StOK]) hd (AbsSrc.new (b ++ t)) t
+  have h := ((rt_wf env henv v).1 ty [] b st' fuel he hu (by simp [StOK]) hd (AbsSrc.new (b ++ t)) t
     (WF_new _) (view_new _) rfl).1
   have hsim := refine (dec env fuel ty) (Ctx.new (b ++ t)) (Ctx.new_Inv _)
   rw [absCtx_new, h] at hsim
